@@ -46,3 +46,72 @@ prop("C07", "Line-width and trailing-whitespace diagnostics are exact", "proof",
                         "U04": "same sentence, on the real format_lines; a trailing blank ... makes the run exit with 1"},
      assumptions=["64-bit target", "1 <= tab_spaces <= 65535, text length <= 2^32 (preconditions of the fold)", "char::is_whitespace is the uninterpreted vstd predicate in V, the real one in B",
                   "FileLines::contains_line is an arbitrary predicate in V (external_body), the real one in B; is_skipped_line's contract is assumed in V and checked in U04"])
+
+prop("C20", "The --backup write protocol never loses the original", "fault_enumeration",
+     [{"unit": "U16", "only": r"^(FilesWithBackupEmitter|create_emitter)"}],
+     [{"clause": "at every instant (after every completed, failed or interrupted file-system operation) the complete original is in the file or in its .bk sibling", "status": "bounded", "by": "U16 (complete fault enumeration w.r.t. the FS model)"},
+      {"clause": "the file, when present, holds the complete original or the complete formatted text, never a partial one", "status": "bounded", "by": "U16"},
+      {"clause": "after success file = formatted and .bk = original; unchanged files get no .bk and no operation", "status": "bounded", "by": "U16"},
+      {"clause": "position of the file in a multi-file run (each file's write is an independent call of the same function)", "status": "not_decided", "by": "-"}],
+     "The real text of FilesWithBackupEmitter::emit_formatted_file runs against a recording file-system model; its effect sequence is loop-free, so enumerating "
+     "every operation index x {fails without effect, fails after a partial write, crash right after, crash after a partial write} is a complete fault enumeration with respect to the model "
+     "(write non-atomic, rename atomic and replacing). Neither Verus nor Kani can execute Path::with_extension / dyn Write / io::Error code (Kani > 10 min), so this is native and labelled as enumeration, not proof.",
+     statement_clauses={"U16": "whichever file-system operation of the write is the last to complete before a crash or an I/O error, one of the two holds the complete original, and the file, when present, holds either the complete original or the complete formatted text, never a partial one"},
+     assumptions=["POSIX model: fs::write may leave a prefix, fs::rename is atomic and replaces its target; a crash happens between operations or inside a write",
+                  "file contents drawn from 4 short texts: the function never inspects the bytes beyond `original_text != formatted_text`"])
+
+prop("C15", "Output is a function of source and configuration only", "proof",
+     ["U05"],
+     [{"clause": "the session summary (ReportedErrors::add) is a field-wise OR: commutative, associative, idempotent, so the final flags do not depend on the order of the files", "status": "proved", "by": "U05 (Kani, complete)"},
+      {"clause": "the exit status of a multi-file invocation is the maximum of the single-file statuses (file and stdin entry points)", "status": "proved", "by": "U05 (Kani, complete)"},
+      {"clause": "override_config runs the closure under the local configuration and restores the session configuration afterwards (for any closure that does not itself assign `config`)", "status": "proved", "by": "U05 (Kani, complete)"},
+      {"clause": "fresh ParseSess per input, environment / working-directory independence, stdin-vs-path equality of the bytes, per-file reports equal to single-file runs", "status": "not_decided", "by": "-"}],
+     "Only the state that survives between inputs of one session is within reach of contracts: the error summary, the exit-code formula and the config swap. They are loop-free functions over booleans and "
+     "two words, so a Kani harness over fully symbolic inputs is a complete proof. Whether the formatter proper is deterministic is not decided by this technique.",
+     statement_clauses={"U05": "The exit status of a multi-file invocation is the maximum of the single-file statuses"},
+     assumptions=["Session is a shim holding the real fields read by the extracted functions (config, errors, out); Config is two opaque words", "Session::format is a harness-chosen outcome"])
+
+prop("C05", "A failing run never damages source files", "other",
+     ["U05", {"unit": "U16", "exclude": r"^FilesWithBackupEmitter"}],
+     [{"clause": "the exit status is 1 whenever a parsing or operational error was recorded; an Err from formatting a root is folded into the session as an operational error and later roots are still processed", "status": "proved", "by": "U05 (Kani, complete)"},
+      {"clause": "a file is only ever replaced by its complete formatted text, and only if it differs (FilesEmitter: exactly one fs::write of the whole text, iff original != formatted)", "status": "bounded", "by": "U16 (native, complete w.r.t. the FS model)"},
+      {"clause": "only --emit files reaches the file system (create_emitter table + token scan of the other emitters)", "status": "bounded", "by": "U16 + frame scan"},
+      {"clause": "every fault (syntax error in any reached module, unresolvable module, bad config) is detected before the first write; rustc parser and ModResolver report every fault", "status": "not_decided", "by": "-"}],
+     "Decided: the exit-code and error-folding clauses (proved on the extracted statements) and the 'only complete text, only if different' clause of the files emitter. "
+     "Not decided: that parse/resolve errors are raised before any file of the crate is emitted (format_project over rustc types).",
+     statement_clauses={"U05": "a diagnostic is printed and the exit status is 1. Other roots named on the same command line are still formatted",
+                        "U16": "a file is only ever replaced by its complete formatted text"})
+
+prop("C06", "Check mode is read-only and exact; all emit modes agree on the text", "other",
+     ["U05", {"unit": "U16", "exclude": r"^FilesWithBackupEmitter"}],
+     [{"clause": "--check exits 1 exactly when (no operational/parsing error and) a diff or check error was recorded, 0 otherwise (exit-code statement of `format`)", "status": "proved", "by": "U05 (Kani, complete)"},
+      {"clause": "files mode touches a file only if its formatted text differs from the original, and then writes exactly the formatted text", "status": "bounded", "by": "U16"},
+      {"clause": "stdout mode prints exactly the formatted text (plus the file-name header unless quiet) — the same &str the files emitter writes", "status": "bounded", "by": "U16"},
+      {"clause": "--check / stdout / diff / json / checkstyle / modified-lines never modify a file: create_emitter selects a writing emitter only for EmitMode::Files; the other emitter files contain no file-system name", "status": "bounded", "by": "U16 + frame scan emitters_no_fs"},
+      {"clause": "DiffEmitter's has_diff <=> original != formatted (ties --check's exit to what files mode would rewrite)", "status": "not_decided", "by": "planned in U15"},
+      {"clause": "modification times; text produced for stdin equals text for a path", "status": "not_decided", "by": "-"}],
+     "Mixture: exit-code formula proved (Kani), emitter behaviour enumerated on the real text, frame scan for the non-writing emitters.",
+     statement_clauses={"U05": "`--check` exits with 1 exactly when plain `rustfmt` would rewrite at least one of the files, and with 0 otherwise",
+                        "U16": "files mode touches a file only if its formatted text differs from what is on disk; the non-files emitters never modify a file"})
+
+# ------------------------------------------------------------------ MANIFEST texts
+T_V = "contract-based deductive verification: Verus on mechanically extracted real functions"
+T_K = "contract-based verification: Kani harnesses over full-domain symbolic inputs on extracted loop-free real functions (complete)"
+T_B = "bounded-exhaustive contract checking of the natively compiled real function text (stand-in, labelled bounded)"
+MANIFEST_TEXT = {
+    "C05": {"text": "Exit-status and error-folding clauses proved (Kani, complete) on the extracted statements of bin/main.rs and Session; 'a file is only replaced by its complete formatted text, only if it differs' enumerated on the real FilesEmitter against a recording FS model. That every input fault is detected before the first write is NOT decided.",
+            "note": "Kani/CBMC, extractor; Session/Config shims; FS model; rustc parser, ModResolver and format_project ordering are unverified surroundings", "technique": T_K + " + " + T_B},
+    "C06": {"text": "--check exit formula proved (Kani, complete); files/stdout emitter behaviour and the create_emitter table enumerated completely on the real text; token-level frame scan shows the non-files emitters name no file-system API. mtime and stdin-vs-path equality not decided.",
+            "note": "Kani/CBMC, extractor; FS model; frame scan assumes FS mutation is only reachable through the scanned std names", "technique": T_K + " + " + T_B + " + frame scan"},
+    "C07": {"text": "The C07 sentence is transcribed as a spec function; Verus proves the verbatim FormatLines step functions against it and the fold for texts of unbounded length, all usize configurations (tab_spaces >= 1). The real iterate/CharClasses/is_skipped_line/track_errors are tied to the same spec bounded-exhaustively.",
+            "note": "Verus/Z3, extractor; 10-line driver loop restated (CharClasses is outside Verus); contains_line and is_skipped_line assumed in V and checked in B; char kinds taken from CharClasses", "technique": T_V + " + " + T_B},
+    "C15": {"text": "Only the inter-file session state is within reach: ReportedErrors::add is a field-wise OR, exit status of a multi-file run is the max of the single statuses, override_config restores the config — all proved by Kani over fully symbolic inputs (loop-free, complete). Determinism of the formatter proper is not decided.",
+            "note": "Kani/CBMC, extractor; Session shim with the real fields; Session::format is a harness-chosen outcome", "technique": T_K},
+    "C16": {"text": "Verus discharges machine-integer overflow obligations on the verbatim text of the contracted integer functions for all inputs; bounded native units catch any panic on their enumerated domains (labelled bounded). Parser/catch_unwind/stack clauses are not decided.",
+            "note": "Verus/Z3, extractor, 64-bit usize; std::cmp::{min,max} usize shims; everything outside the contracted functions is unverified surroundings", "technique": T_V + " + " + T_B},
+    "C17": {"text": "Range algebra proved in Verus against a set-of-lines view (union semantics of merge/adjacent/intersects, all usize); the FileLines container is checked bounded-exhaustively on the real file text. Visitor-side use of the guard is not decided.",
+            "note": "Verus/Z3, extractor; HashMap/iterator/serde code only bounded; SourceMap line lookup unverified", "technique": T_V + " + " + T_B},
+    "C20": {"text": "Complete enumeration of fault points (operation index x {fails clean, fails after partial write, crash after, crash after partial write}) of the loop-free effect sequence of the real FilesWithBackupEmitter text against a recording file-system model; invariant checked after every operation.",
+            "note": "FS model (write non-atomic, rename atomic) is assumed; contents from 4 short texts; Verus/Kani cannot execute Path/dyn Write code (measured), so this is native enumeration, not proof", "technique": "fault enumeration of the real function text against a file-system model (bounded stand-in for a contract proof)"},
+}
+NOT_APPLICABLE = []
